@@ -1,0 +1,67 @@
+//go:build verif
+
+// Copyright 2023 StreamNative, Inc.
+//
+// Licensed under the Apache License, Version 2.0 (the "License");
+// you may not use this file except in compliance with the License.
+// You may obtain a copy of the License at
+//
+//     http://www.apache.org/licenses/LICENSE-2.0
+//
+// Unless required by applicable law or agreed to in writing, software
+// distributed under the License is distributed on an "AS IS" BASIS,
+// WITHOUT WARRANTIES OR CONDITIONS OF ANY KIND, either express or implied.
+// See the License for the specific language governing permissions and
+// limitations under the License.
+
+package internal
+
+import (
+	"log/slog"
+
+	"github.com/oxia-db/oxia/common/concurrent"
+)
+
+// VerifShardManager is a shard manager without the assignments stream (verification harness only).
+type VerifShardManager struct {
+	impl *shardManagerImpl
+}
+
+type verifStrategy struct {
+	hash func(string) uint32
+}
+
+func (v *verifStrategy) Get(key string) func(Shard) bool {
+	code := v.hash(key)
+	return func(shard Shard) bool {
+		return shard.HashRange.MinInclusive <= code && code <= shard.HashRange.MaxInclusive
+	}
+}
+
+// NewVerifShardManager uses the real shard strategy when hash is nil.
+func NewVerifShardManager(hash func(string) uint32) *VerifShardManager {
+	var strategy ShardStrategy = NewShardStrategy()
+	if hash != nil {
+		strategy = &shardStrategyImpl{hashFunc: hash}
+	}
+	return &VerifShardManager{impl: &shardManagerImpl{
+		shardStrategy: strategy,
+		shards:        make(map[int64]Shard),
+		logger:        slog.With(slog.String("component", "shardManager")),
+	}}
+}
+
+func (v *VerifShardManager) Update(shards []Shard) {
+	v.impl.updatedWg = concurrent.NewWaitGroup(1)
+	v.impl.update(shards)
+}
+
+func (v *VerifShardManager) Get(key string) int64 { return v.impl.Get(key) }
+
+func (v *VerifShardManager) Shards() []Shard {
+	res := make([]Shard, 0, len(v.impl.shards))
+	for _, s := range v.impl.shards {
+		res = append(res, s)
+	}
+	return res
+}
